@@ -248,10 +248,12 @@ def angle_deg(a, b, c):
 
 
 def dihedral_deg(a, b, c, d):
-    b0, b1, b2 = a - b, c - b, d - c
-    n1, n2 = np.cross(b0, b1), np.cross(b2, b1)
-    m = np.cross(n1, b1 / np.linalg.norm(b1))
-    return math.degrees(math.atan2(np.dot(m, n2), np.dot(n1, n2)))
+    """signed dihedral, IUPAC / GROMACS convention (projection formula)"""
+    b0, b1, b2 = -1.0 * (b - a), c - b, d - c
+    b1 = b1 / np.linalg.norm(b1)
+    v = b0 - np.dot(b0, b1) * b1
+    w = b2 - np.dot(b2, b1) * b1
+    return math.degrees(math.atan2(np.dot(np.cross(b1, v), w), np.dot(v, w)))
 
 
 def judge_templates(top, records, defs, resnames, case1, user=None):
@@ -474,8 +476,80 @@ def check_user(case):
     return viols, evals, keys
 
 
+CHIRAL_ITP = """[ moleculetype ]
+CHI 1
+[ atoms ]
+1 P 1 CHI CA 1 0.0 12.0
+2 P 1 CHI N 2 0.0 14.0
+3 P 1 CHI C 3 0.0 12.0
+4 P 1 CHI CB 4 0.0 12.0
+[ bonds ]
+1 2 1 0.147 1000
+1 3 1 0.153 1000
+1 4 1 0.153 1000
+[ angles ]
+2 1 3 1 109.5 100
+2 1 4 1 109.5 100
+3 1 4 1 109.5 100
+[ dihedrals ]
+1 2 3 4 2 {ref} 100
+"""
+
+
+def check_optgeom(case):
+    """optimize_geometry driven directly on a chiral centre from enumerated starting structures (the target geometry, its
+    mirror image, a flattened one, each under lattice perturbations): whenever success is reported all targets hold"""
+    import vermouth.forcefield
+    from polyply.src.polyply_parser import read_polyply
+    from polyply.src.minimizer import optimize_geometry
+    viols, evals, keys = [], 0, []
+    base = {"CA": np.array([0.0, 0.0, 0.0]), "N": np.array([0.1386, 0.0, -0.049]), "C": np.array([-0.0721, 0.1249, -0.051]),
+            "CB": np.array([-0.0721, -0.1249, -0.051])}
+    for ref in (35.26439, -35.26439, 0.0):
+        ff = vermouth.forcefield.ForceField("x")
+        read_polyply(CHIRAL_ITP.format(ref=ref).splitlines(keepends=True), ff)
+        block0 = ff.blocks["CHI"]
+        nodes = list(block0.nodes)
+        names = {n: block0.nodes[n]["atomname"] for n in nodes}
+        for shape in ("as-is", "mirror", "flat"):
+            for pert in itertools.product((-0.02, 0.0, 0.02), repeat=3):
+                coords = {}
+                for i, n in enumerate(nodes):
+                    p = base[names[n]].copy()
+                    if shape == "mirror":
+                        p[2] = -p[2]
+                    if shape == "flat":
+                        p[2] = 0.0 if names[n] != "CA" else 0.001
+                    if names[n] == "CB":
+                        p = p + np.array(pert)
+                    coords[n] = p
+                evals += 1
+                case1 = dict(kind="optgeom1", ref=ref, shape=shape, pert=list(pert))
+                try:
+                    block = block0
+                    ok1, c1 = optimize_geometry(block, dict(coords), ["bonds", "constraints", "angles"])
+                    ok2, c2 = optimize_geometry(block, c1, ["bonds", "constraints", "angles", "dihedrals"])
+                except Exception as exc:  # noqa
+                    viols.append(crash_violation(exc, case1, assertion="optimisation-runs"))
+                    continue
+                if not ok2:
+                    continue
+                pts = {names[n]: np.asarray(c2[n], dtype=float) for n in nodes}
+                dev = abs(dihedral_deg(pts["CA"], pts["N"], pts["C"], pts["CB"]) - ref)
+                dev = min(dev, 360 - dev)
+                if dev > 5 + 1e-6:
+                    viols.append(dict(assertion="optimised-template-meets-targets", tags=["improper"],
+                                      message=f"improper CA-N-C-CB = {dihedral_deg(pts['CA'], pts['N'], pts['C'], pts['CB']):.2f} deg, target {ref}, start {shape} {pert}: reported optimised", case=case1, detail={}))
+                for a, b, l in (("CA", "N", 0.147), ("CA", "C", 0.153), ("CA", "CB", 0.153)):
+                    if abs(np.linalg.norm(pts[a] - pts[b]) - l) > 0.05 + 1e-9:
+                        viols.append(dict(assertion="optimised-template-meets-targets", tags=["bond"], message=f"bond {a}-{b} off, start {shape} {pert}", case=case1, detail={}))
+                keys.append(f"optgeom:{ref}:{shape}:{pert}")
+    return viols, evals, keys
+
+
 def cases(tier):
     yield dict(kind="vs", tier=tier)
+    yield dict(kind="optgeom", tier=tier)
     nparts = 24
     for p in range(nparts):
         yield dict(kind="pairs", part=p, nparts=nparts, tier=tier)
@@ -485,12 +559,12 @@ def cases(tier):
     yield dict(kind="user", tier=tier)
 
 
-FUNCS = {"twomol": check_two_molecules, "vs": check_vs, "pairs": check_pairs, "vsres": check_vs_residues, "user": check_user}
+FUNCS = {"optgeom": check_optgeom, "twomol": check_two_molecules, "vs": check_vs, "pairs": check_pairs, "vsres": check_vs_residues, "user": check_user}
 
 
 def run_case(case):
     if case["kind"] not in FUNCS:
-        fam = {"vs1": "vs", "pair1": "pairs", "vsres1": "vsres", "user1": "user", "twomol1": "twomol"}[case["kind"]]
+        fam = {"vs1": "vs", "pair1": "pairs", "vsres1": "vsres", "user1": "user", "twomol1": "twomol", "optgeom1": "optgeom"}[case["kind"]]
         out = []
         for part in range(24 if fam == "pairs" else 1):
             v, _, _ = FUNCS[fam](dict(kind=fam, tier="thorough", part=part, nparts=24))
